@@ -21,7 +21,7 @@ from statistics import NormalDist
 FLOOR = 1e-3  # the library's own safety floor (BaselineMetrics._min_denominator)
 REL = 1e-12  # relative tolerance between two different computations of the same real number
 MAD_K = 1.0 / NormalDist().inv_cdf(0.75)
-EXACT_MAX_N = 8
+EXACT_MAX_N = 512
 
 UNDEF = ("undef",)
 NONFINITE = ("nonfinite",)
@@ -83,6 +83,12 @@ def _sqrt(x):
 
 def column(A, xs):
     """Summary statistics of one column (ColumnMetrics).  Returns (acceptance dict, raw dict)."""
+    return _column(A.exact, tuple(xs))
+
+
+@lru_cache(maxsize=32)
+def _column(exact, xs):
+    A = Arith(exact)
     n = len(xs)
     X = A.conv(xs)
     absmean = math.fsum(abs(x) for x in xs) / n
@@ -157,6 +163,12 @@ def ratio(nums, den, scale):
 
 def lag1_autocorr(A, e):
     """Pearson correlation of (e[1:], e[:-1]).  Returns (rho or None, one_plus_rho_is_zero, one_minus_rho_is_zero)."""
+    return _lag1_autocorr(A.exact, tuple(e))
+
+
+@lru_cache(maxsize=32)
+def _lag1_autocorr(exact, e):
+    A = Arith(exact)
     if len(e) < 3:
         return None, False, False
     E = A.conv(e)
@@ -181,6 +193,12 @@ def lag1_autocorr(A, e):
 
 def corr_squared(A, a, b):
     """Squared Pearson correlation; None when either series has no spread."""
+    return _corr_squared(A.exact, tuple(a), tuple(b))
+
+
+@lru_cache(maxsize=32)
+def _corr_squared(exact, a, b):
+    A = Arith(exact)
     n = len(a)
     if n < 2 or max(a) == min(a) or max(b) == min(b):
         return None
